@@ -403,9 +403,11 @@ KeyVerdict(rec) ==
       dv == SeqSetC(rec.dv) \cap KeyDevs
       stages == KStages(c)
       nb == Len(KBattery)
+      r1 == KState1(c.kind, KWOf(c.via), {})                 \* the reference states, computed once per cell
+      r2 == KState2(r1, c.kind, c.ret, {})
       one(stage, a) ==
         LET act == KAct(rec, stage, a)
-            ref == KExp(c, {}, stage, a)
+            ref == KObs(IF stage = 1 THEN r1 ELSE r2, c.kind, {}, a)
             good == {S \in SUBSET dv : S # {} /\ act \in KExp(c, S, stage, a)}
             lab == ToString(stage) \o ":" \o a
             exp == CHOOSE x \in ref : TRUE
